@@ -197,6 +197,35 @@ def _multi_case(rng: Rng):
 def gen_cases(rng: Rng, tier):
     n = dict(quick=330, thorough=4400)[tier]
     big = tier == "thorough"
+    # scale of the domain: B-splines on domains of tiny absolute length (2^-20 ~ 1e-6, 2^-30 ~ 1e-9, [2e-7, 5e-7]) and on unit-length
+    # domains at a large offset (±2^20 ~ 1e6), with points on, a few ulps and h/64, h/2^16 left / right of every knot; the
+    # tolerances are relative to the domain's own scale (knot-index coordinate), so absolute thresholds in the code show up
+    srng = Rng("C18-scale-block")
+    sdoms = [(Fraction(0), Fraction(1, 2 ** 20)), (F(2e-7), F(5e-7)), (Fraction(0), Fraction(1, 2 ** 30)), (Fraction(2 ** 20), Fraction(2 ** 20 + 1)),
+             (Fraction(-2 ** 20 - 2), Fraction(-2 ** 20)), (Fraction(1, 2 ** 10), Fraction(1, 2 ** 10) + Fraction(1, 2 ** 24))]
+    for di, (a_, b_) in enumerate(sdoms):
+        for p_ in (1, 2, 3, 5):
+            nseg_ = [4, 5, 8, 3][(di + p_) % 4]
+            h_ = (b_ - a_) / nseg_
+            pts = {a_, b_}
+            for k_ in range(nseg_ + 1):
+                t_ = a_ + k_ * h_
+                for off in (Fraction(0), h_ / 64, -h_ / 64, h_ / 2 ** 16, -h_ / 2 ** 16, h_ / 3):
+                    q_ = Fraction(float(t_ + off))
+                    if a_ <= q_ <= b_:
+                        pts.add(q_)
+                f_ = float(t_)
+                for nb_ in (np.nextafter(f_, np.inf), np.nextafter(f_, -np.inf)):
+                    if a_ <= Fraction(float(nb_)) <= b_:
+                        pts.add(Fraction(float(nb_)))
+            xs_ = sorted(pts)
+            yield dict(kind="bs", p=p_, nfun=nseg_ + p_, dmin=rs(a_), dmax=rs(b_), x=[rs(v) for v in xs_], default_dom=False, structured=True, scale=True)
+            if p_ in (1, 3):
+                sub = xs_[:: max(1, len(xs_) // 12)] + [xs_[-1]]
+                yield dict(kind="basis1", fam="bsplines", n=nseg_ + p_, p=p_, add=True, norm=False, x=[rs(v) for v in sorted(set(sub))],
+                           dmin=rs(a_), dmax=rs(b_), default_dom=False, labels=None, structured=True, scale=True)
+                yield dict(kind="sim", fam="bsplines", n=nseg_ + p_, p=p_, add=(di % 2 == 0), norm=False, x=[rs(v) for v in sorted(set(sub))],
+                           dmin=rs(a_), dmax=rs(b_), default_dom=True, structured=True, scale=True)
     # inputs left as they were + argument objects reused: ONE ndarray / ONE DenseArgvals serves several bases (grids not starting at 0)
     sgrid = {"legendre": [Fraction(-1) + Fraction(i, 6) for i in range(13)], "other": [Fraction(3) + Fraction(i * i, 32) for i in range(9)],
              "wiener": [Fraction(1, 8) + Fraction(i, 16) for i in range(13)]}
@@ -1200,6 +1229,8 @@ def classify(case, impl):
     if case["kind"] == "multi":
         tags.append("multi:dims=" + "+".join(str(len(c["n"])) for c in case["comps"]))
         tags.append(f"multi:degree={case.get('p')},domain={'explicit' if 'dmin' in case else 'default'}")
+    if case.get("scale"):
+        tags.append("domain-scale:tiny-or-offset(structured)")
     if case["kind"] == "shared":
         tags.append("shared:" + case["scenario"])
     if case.get("foreign"):
